@@ -431,7 +431,7 @@ func b64(n int) string {
 var jStringRepl = []string{
 	`"!!!!"`, `"===="`, `"A"`, `"AA"`, `"AAA"`, `"A==="`, // invalid / short base64
 	`"` + b64(0) + `"`, `"` + b64(1) + `"`, `"` + b64(15) + `"`, `"` + b64(17) + `"`, `"` + b64(32) + `"`,
-	`"ERERESIiMzNERFVVVVVVVQ"`,  // unpadded base64 of 16 bytes
+	`"ERERESIiMzNERFVVVVVVVQ"`,   // unpadded base64 of 16 bytes
 	`"ERERESIiMzNERFVVVVVVVQ=="`, // a valid 16-byte value (where a string was expected)
 	`"EREREiIzM0RFVVVVVVU-_w=="`, // url-safe alphabet
 	`"NOPE"`, `"SUCCEEDED"`, `"RELIABLE"`, `"succeeded"`, `"37"`, `"0"`,
@@ -446,7 +446,10 @@ func corJStrings(s seedEncoding, _ []seedEncoding, thorough bool, emit emitFn) {
 	n := len(root.sites())
 	for k := 0; k < n; k++ {
 		isStr := false
-		mutateJ(root, k, func(get func() *jnode, _ func(*jnode), _ jsite) { g := get(); isStr = g.Kind == 'r' && strings.HasPrefix(g.Raw, `"`) })
+		mutateJ(root, k, func(get func() *jnode, _ func(*jnode), _ jsite) {
+			g := get()
+			isStr = g.Kind == 'r' && strings.HasPrefix(g.Raw, `"`)
+		})
 		if !isStr {
 			continue
 		}
